@@ -326,3 +326,12 @@ func condFact(facts []Fact, s *Sym) (val, known bool) {
 	}
 	return false, false
 }
+
+// outerObject: the object a field address through embedded structs belongs to (&x.base.f -> x for an embedded
+// base): a field moved into an embedded struct is still a field of the outer object.
+func outerObject(a *Sym) *Sym {
+	for a != nil && a.Kind == KFieldAddr && a.Field != nil && a.Field.Embedded() {
+		a = a.Args[0]
+	}
+	return a
+}
